@@ -30,7 +30,7 @@ import (
 	"verif/vx"
 )
 
-var partC = flag.Int("partc", -1, "(internal) run part C cases from this index in a worker process")
+var partCFrom = flag.Int("partc", -1, "(internal) run part C cases from this index in a worker process")
 
 // ---------- part A ----------
 
@@ -446,8 +446,8 @@ func partC(r *vx.Run) {
 
 func main() {
 	flag.Parse()
-	if *partC >= 0 {
-		partCWorker(*partC)
+	if *partCFrom >= 0 {
+		partCWorker(*partCFrom)
 	}
 	r := vx.Start("C33", "model_checking")
 	clog.SetLogLevel("crit")
